@@ -43,6 +43,9 @@ type Block struct {
 	Body    string // spec func body text (Go), including braces
 	Props   []string
 	Opaque  bool
+	RecvPkg string // package name of a foreign receiver type (assume blocks)
+	Abstract bool // spec function without a body (uninterpreted)
+	Axiom   bool  // lemma that is assumed, not proved
 	Ghosts  [][2]string   // universally quantified postcondition variables (name, type)
 	decl    *ast.FuncDecl // parsed header
 }
@@ -57,7 +60,7 @@ func (b *Block) Key() string {
 func (b *Block) QName() string { return b.PkgName + "." + b.Key() }
 
 var clauseKW = []string{"requires", "ensures", "loop", "split", "opaque", "prop", "decreases", "modifies", "assume", "inline", "nooverlay", "unsafe-ok", "havoc", "using", "trusted", "known", "reveal", "forall", "use", "inline"}
-var blockKW = []string{"opaque spec func", "spec func", "lemma", "func", "assume-dep", "iface", "ghost"}
+var blockKW = []string{"opaque spec func", "abstract func", "spec func", "lemma", "axiom", "assume func", "func", "assume-dep", "iface", "ghost"}
 
 func startsWithKW(s string, kws []string) string {
 	for _, k := range kws {
@@ -135,6 +138,18 @@ func ParseContractFile(path, pkgPath string) ([]*Block, error) {
 				} else {
 					return nil, fmt.Errorf("%s:%d: spec func needs '= expr' or '{'", path, ln)
 				}
+			case "abstract func":
+				cur.Kind = "spec"
+				cur.Opaque = true
+				cur.Abstract = true
+				cur.Header = rest
+			case "axiom":
+				cur.Kind = "lemma"
+				cur.Axiom = true
+				cur.Header = rest
+			case "assume func":
+				cur.Kind = "assume"
+				cur.Header = rest
 			case "lemma":
 				cur.Kind = "lemma"
 				cur.Header = rest
@@ -256,19 +271,24 @@ func (b *Block) parseHeader() error {
 	h := b.Header
 	src := ""
 	switch b.Kind {
-	case "spec", "func", "assume-dep", "iface":
+	case "spec", "func", "assume":
 		src = "package x\nfunc " + h + " {}"
 	case "lemma":
 		src = "package x\nfunc " + h + " {}"
 	}
 	if b.Kind == "assume-dep" || b.Kind == "iface" {
-		// header is Qualified.Name(params) results; the qualifier is kept in Name
+		// header is Type.Method(params) results, or FuncType(params) results
 		idx := strings.Index(h, "(")
 		if idx < 0 {
 			return fmt.Errorf("%s:%d: bad header", b.File, b.Line)
 		}
 		q := strings.TrimSpace(h[:idx])
 		b.Name = q
+		if dot := strings.Index(q, "."); dot >= 0 {
+			b.Recv, b.Name = q[:dot], q[dot+1:]
+		} else {
+			b.Recv, b.Name = q, ""
+		}
 		src = "package x\nfunc dep" + h[idx:] + " {}"
 	}
 	fset := token.NewFileSet()
@@ -289,6 +309,12 @@ func (b *Block) parseHeader() error {
 		}
 		if id, ok := t.(*ast.Ident); ok {
 			b.Recv = id.Name
+		}
+		if se, ok := t.(*ast.SelectorExpr); ok { // foreign type: pkg.Type
+			b.Recv = se.Sel.Name
+			if x, ok := se.X.(*ast.Ident); ok {
+				b.RecvPkg = x.Name
+			}
 		}
 	}
 	return nil
@@ -550,6 +576,9 @@ func sameEntries[K comparable, V comparable](a, b map[K]V) bool {
 	return true
 }
 
+// cancelled(): the ghost flag "the search has been told to stop" at this point (verifier only).
+func cancelled() bool { return false }
+
 // allocated(p): p is a non-nil reference to an object allocated before (heap classes only).
 func allocated[T any](p *T) bool { return p != nil }
 
@@ -644,7 +673,52 @@ func GenOverlay(pkgName string, blocks []*Block, extraImports []string) string {
 	for _, b := range blocks {
 		recv, params, results := b.headerParts()
 		switch b.Kind {
+		case "assume", "iface":
+			// clause functions are plain functions whose first parameter is the receiver / the value itself
+			self := ""
+			prefix := ""
+			if b.Kind == "assume" {
+				self = strings.TrimSuffix(strings.TrimPrefix(recv, "("), ")")
+				prefix = "assume_" + b.Recv + "_" + b.Name + "__"
+				if b.Recv == "" {
+					prefix = "assume_" + b.Name + "__"
+				}
+			} else {
+				self = "self " + b.Recv
+				prefix = "iface_" + b.Recv + "_" + b.Name + "__"
+			}
+			lead := self
+			if params != "" {
+				if lead != "" {
+					lead += ", "
+				}
+				lead += params
+			}
+			nreq, nens := 0, 0
+			for _, c := range b.Clauses {
+				switch c.Kind {
+				case "requires":
+					c.Name = fmt.Sprintf("%sreq%d", prefix, nreq)
+					nreq++
+					fmt.Fprintf(&sb, "\nfunc %s(%s) bool {\n\treturn %s\n}\n", c.Name, lead, c.Go)
+				case "ensures":
+					c.Name = fmt.Sprintf("%sens%d", prefix, nens)
+					nens++
+					all := lead
+					if results != "" {
+						if all != "" {
+							all += ", "
+						}
+						all += results
+					}
+					fmt.Fprintf(&sb, "\nfunc %s(%s) bool {\n\treturn %s\n}\n", c.Name, all, c.Go)
+				}
+			}
 		case "spec":
+			if b.Abstract {
+				fmt.Fprintf(&sb, "\nfunc %s {\n\tpanic(\"abstract spec function\")\n}\n", b.Header)
+				continue
+			}
 			if b.Body != "" {
 				fmt.Fprintf(&sb, "\nfunc %s %s", b.Header, b.Body)
 			} else {
